@@ -260,7 +260,10 @@ class Rig:
         from excel2pycl import Cell, Executor
         self.error, self.cls, self.ex = None, None, None
         parser.set_excel_file_path(path)
-        parser.set_entrypoint_cell(Cell(*entry) if entry else None)
+        if getattr(parser, '_mon_entry', 'unset') != entry:
+            # an unchanged entry cell is not set again: the Parser keeps the Cell object it was given for the previous workbook
+            parser.set_entrypoint_cell(Cell(*entry) if entry else None)
+            parser._mon_entry = entry
         text = lib.call_catch(parser.get_translation)
         if isinstance(text, codec.Raised):
             self.error = text
@@ -317,7 +320,7 @@ def single_replay(p):
 
 
 # ------------------------------------------------------------------ workbook and reference generators
-TITLES_UNQUOTED = ['S', 'T2', 'Sheet1', 'Sheet10', 'S_1', 's', 'SS', 'Лист1', 'Übersicht', '2024', 'A1', 'SUM', 'IF', 'TRUE', 'XFD1', '日本語', '_x']
+TITLES_UNQUOTED = ['S', 'T2', 'Sheet1', 'Sheet10', 'S_1', 'sS2', 'SS', 'Лист1', 'Übersicht', '2024', 'A1', 'SUM', 'IF', 'TRUE', 'XFD1', '日本語', '_x']
 TITLES_QUOTED = ['My Sheet', 'a b c', 'Q1-2024 (final)', 'x,y;z', 'p&l + tax', 'He said "hi"', 'sp  ace', ' lead', 'trail ', 'dot.ted',
                  'a=b', '#hash', '100%', 'S ', 'S 2', '{curly}', '日本 語', 'A1:B2'.replace(':', '-'), 'x<y>z', 'B2 C3', '1+1', '@home~', 'T2 ']
 EMPTY_TITLE = 'Empty one'
@@ -836,7 +839,8 @@ def lex_job(job):
     fails = []
     samples = []
     t0 = time.time()
-    for case in lex_cases(rng, job['per_combo']):
+    first = [{'title': 'q r', 'quoted': True, 'shape': 'cell', 'text': "'q r'!A1", 'cells': [('A', '1')], 'suffix': "+SUM('q r'!B1:B3)"}]
+    for case in itertools.chain(first, lex_cases(rng, job['per_combo'])):
         r = lex_one(case)
         if r == 'skip':
             skipped += 1
@@ -1326,7 +1330,7 @@ def wholecol_job(job):
                     obs.append({'form': 'direct', 'ref': ref, 'args': []})
                 nrows = {None: 12, 0: 12, 1: 3, 2: 0, 3: 6}[sheet]
                 every = (c1, c2) in ((1, 4), (2, 2)) and (sheet, q) in ((None, False), (1, True), (3, False))
-                for i in (range(1, nrows + 1) if every else sorted({1, nrows} - {0})):
+                for i in (range(1, nrows + 1) if every else sorted({1, nrows} - {0}) if nrows else []):
                     for j in range(1, c2 - c1 + 2):
                         obs.append({'form': 'index', 'ref': ref, 'args': [i, j]} if c2 > c1 or i % 2 else {'form': 'index1', 'ref': ref, 'args': [i]})
     obs = [o for o in obs if not (o['ref']['sheet'] == 2 and o['form'] == 'direct')] + \
@@ -1358,6 +1362,31 @@ def wholecol_job(job):
             run_book(stats, fails, rig, model, obs, hosts, 'wholecol_override', job, [inside], mode)
             # below the last stored row of the sheet
             below = [(1, 1, 5, 601), (2, 1, 1, 602), (0, 1, 3000, 603), (3, 2, 2500, 604)]
+            rig.set(titles, below)
+            for s, c, r, v in below:
+                model.over[(s, c, r)] = v
+            for s in hosts:
+                for k, o in enumerate(obs):
+                    if o['form'] != 'sum':
+                        continue
+                    c, r = fpos(k)
+                    got = rig.get(titles, s, c, r)
+                    exp = expected(model, s, o)
+                    stats['evals'] += 1
+                    ts, _, cols = model.area(o['ref'], s)
+                    touched = any(bs == ts and bc in cols for bs, bc, _, _ in below)
+                    if not conforms(o, got, exp) and not touched:
+                        key = f'C02.wholecol_override.{shape_of(o["ref"])}.{prefix_kind(o["ref"], s)}'
+                        if not any(f['key'] == key for f in fails):
+                            fails.append({'key': key, 'what': f'[{mode}] after overrides in other columns {formula_text(o, titles)} on {titles[s]!r} -> '
+                                          f'{short(got, 60)}, expected {short(exp, 60)}', 'replay': {'kind': 'job', 'job': job, 'key': key}})
+                    elif not conforms(o, got, exp) and not any(f['key'] == STORED_KEY for f in fails):
+                        m0 = Model(['S'], [[0, 1, 1, planted(0, 1, 1)]])
+                        o0 = {'form': 'sum', 'ref': mkref(None, False, 1, None, 1, None), 'args': []}
+                        fails.append({'key': STORED_KEY, 'what': f'[{mode}] after set_cells({below!r}) (cells below the last stored row): '
+                                      f'{formula_text(o, titles)} on {titles[s]!r} -> {short(got, 60)}, expected {short(exp, 60)}',
+                                      'replay': {'kind': 'wb', 'titles': m0.titles, 'cells': m0.cell_list(), 'host': 0, 'obs': o0, 'mode': mode,
+                                                 'rounds': [[[0, 1, 60, 5]]]}})
             for k, o in enumerate(beyond):
                 c, r = fpos(len(obs) + k)
                 got = rig.get(titles, 0, c, r)
@@ -1369,25 +1398,6 @@ def wholecol_job(job):
                     fails.append({'key': STORED_KEY, 'what': f'[{mode}] {formula_text(o, titles)} where the sheet has fewer stored rows -> {short(got, 60)}, '
                                   f'expected blank (the cell exists and was never written)',
                                   'replay': {'kind': 'wb', 'titles': m0.titles, 'cells': m0.cell_list(), 'host': 0, 'obs': o0, 'mode': mode}})
-            rig.set(titles, below)
-            for s, c, r, v in below:
-                model.over[(s, c, r)] = v
-            sums = [o for o in obs if o['form'] == 'sum']
-            for s in hosts:
-                for k, o in enumerate(obs):
-                    if o['form'] != 'sum':
-                        continue
-                    c, r = fpos(k)
-                    got = rig.get(titles, s, c, r)
-                    exp = expected(model, s, o)
-                    stats['evals'] += 1
-                    if not conforms(o, got, exp) and not any(f['key'] == STORED_KEY for f in fails):
-                        m0 = Model(['S'], [[0, 1, 1, planted(0, 1, 1)]])
-                        o0 = {'form': 'sum', 'ref': mkref(None, False, 1, None, 1, None), 'args': []}
-                        fails.append({'key': STORED_KEY, 'what': f'[{mode}] after set_cells({below!r}) (cells below the last stored row): '
-                                      f'{formula_text(o, titles)} on {titles[s]!r} -> {short(got, 60)}, expected {short(exp, 60)}',
-                                      'replay': {'kind': 'wb', 'titles': m0.titles, 'cells': m0.cell_list(), 'host': 0, 'obs': o0, 'mode': mode,
-                                                 'rounds': [[[0, 1, 60, 5]]]}})
     stats['seconds'] = time.time() - t0
     return {'plan': 'wholecol', 'stats': stats, 'fails': fails}
 
@@ -1436,7 +1446,7 @@ def plan_jobs(tier, seed):
     grid_titles = [['S', 'Q1-2024 (final)', 'Лист1'], ['My Sheet', 'T2', 'x,y;z']] + (title_sets(rng, 8, 3) if big else [])
     for i, ts in enumerate(grid_titles):
         add('grid', i, titles=ts, second=False)
-    for i, ts in enumerate(title_sets(rng, 112 if big else 10, 3)):
+    for i, ts in enumerate(title_sets(rng, 112 if big else 12, 3)):
         add('sample', i, titles=ts, n=300 if big else 130, second=True)
     for i, ts in enumerate(title_sets(rng, 12 if big else 3, 14)):
         add('titles', i, titles=ts, n=60 if big else 28, second=big or i == 0)
@@ -1551,7 +1561,7 @@ def run(tier='quick', seed=0):
     for cid, name, bound, rule, exhaustive in CHECKS:
         checks.append({'name': name, 'bound': bound + (f' [{skipped} refused spellings with "!" in the title not counted]' if cid in ('lexer', 'risky') else ''),
                        'rule': rule, 'exhaustive': exhaustive, 'evaluations': evals[cid], 'distinct_nontrivial': evals[cid],
-                       'failures': dedupe(fails[cid]), 'samples': samples[cid][:3], 'seconds': round(secs.get(cid, 0.0), 1)})
+                       'failures': dedupe(sorted(fails[cid], key=lambda f: len(f['what']))), 'samples': samples[cid][:3], 'seconds': round(secs.get(cid, 0.0), 1)})
     checks[0]['seconds'] = round(checks[0]['seconds'], 2)
     return {'checks': checks, 'wall': round(time.time() - t0, 1), 'jobs': len(jobs)}
 
